@@ -19,7 +19,7 @@ pub broadcast axiom fn boundary_ends(b: Seq<u8>) ensures #[trigger] boundary(b, 
 // a Rust string is at most isize::MAX bytes long
 pub broadcast axiom fn len_bound(s: &Str) ensures #[trigger] bytes(s).len() <= usize::MAX;
 pub open spec fn pos_ok(b: Seq<u8>, i: int) -> bool { 0 <= i <= b.len() && boundary(b, i) }
-pub enum Primitive { Str(Str), Int(i32), Vector(Vec<Primitive>), Optional(Option<Box<Primitive>>), Other(OtherV) }
+pub enum Primitive { Str(Str), Int(i32), Bool(bool), Byte(u8), Vector(Vec<Primitive>), Optional(Option<Box<Primitive>>), Other(OtherV) }
 // character-wise views a change may bring in: uninterpreted (NOT known to agree with byte positions)
 pub uninterp spec fn char_count(b: Seq<u8>) -> int;
 #[verifier::external_body] pub struct CharsV { x: usize }
@@ -80,6 +80,21 @@ SPEC += r"""
             r is None ==> forall|j: int| !occurs_at(bytes(s), bytes(o), j) { unimplemented!() }
 """
 
+SPEC += r"""
+// str::replace(&str, &str): std's definition of "every occurrence of the pattern replaced" (non-overlapping, left to right) -- uninterpreted
+pub uninterp spec fn replaced(s: Seq<u8>, pattern: Seq<u8>, with: Seq<u8>) -> Seq<u8>;
+#[verifier::external_body] pub fn str_replace(s: &Str, p: &Str, w: &Str) -> (r: Str) ensures bytes(&r) == replaced(bytes(s), bytes(p), bytes(w)) { unimplemented!() }
+#[verifier::external_body] pub fn str_contains(s: &Str, o: &Str) -> (r: bool) ensures r == (exists|j: int| occurs_at(bytes(s), bytes(o), j)) { unimplemented!() }
+// the characters of a string (uninterpreted relative to its bytes)
+pub uninterp spec fn chars_seq(s: &Str) -> Seq<char>;
+#[verifier::external_body] pub fn chars_rev_collect(s: &Str) -> (r: Str) ensures chars_seq(&r) == chars_seq(s).reverse() { unimplemented!() }
+// String::from_utf8_lossy(&[b]).into_owned(): the one-character string for an ASCII byte, U+FFFD for any other byte
+pub uninterp spec fn ascii_str(b: u8) -> Seq<u8>;
+pub uninterp spec fn replacement_char_str() -> Seq<u8>;
+#[verifier::external_body] pub fn from_utf8_lossy_1(b: u8) -> (r: Str) ensures bytes(&r) == (if b < 128 { ascii_str(b) } else { replacement_char_str() }) { unimplemented!() }
+#[verifier::external_body] pub fn byte_is_ascii(b: &u8) -> (r: bool) ensures r == (*b < 128) { unimplemented!() }
+"""
+
 ARMS = {
  "StrIndexOf": """requires recv(arguments@), arguments@.len() >= 2, arguments@[1] is Str
     ensures ({ let s = bytes(&arguments@[0]->Str_0); let o = bytes(&arguments@[1]->Str_0);
@@ -89,6 +104,17 @@ ARMS = {
         &&& (r is Ok && r->Ok_0.0->Some_0->Optional_0 is Some) ==> ({ let v = *r->Ok_0.0->Some_0->Optional_0->Some_0;
                 v is Int && occurs_at(s, o, v->Int_0 as int) && forall|j: int| 0 <= j < v->Int_0 ==> !occurs_at(s, o, j) })
         &&& (r is Ok && r->Ok_0.0->Some_0->Optional_0 is None) ==> forall|j: int| !occurs_at(s, o, j) })""",
+ "StrReplace": """requires recv(arguments@), arguments@.len() >= 3, arguments@[1] is Str, arguments@[2] is Str
+    ensures is_str(r, replaced(bytes(&arguments@[0]->Str_0), bytes(&arguments@[1]->Str_0), bytes(&arguments@[2]->Str_0)))""",
+ "StrContains": """requires recv(arguments@), arguments@.len() >= 2, arguments@[1] is Str
+    ensures r is Ok && r->Ok_0.0 == Some(Primitive::Bool(exists|j: int| occurs_at(bytes(&arguments@[0]->Str_0), bytes(&arguments@[1]->Str_0), j)))""",
+ "StrReverse": """requires recv(arguments@)
+    ensures r is Ok && r->Ok_0.0 is Some && r->Ok_0.0->Some_0 is Str && chars_seq(&r->Ok_0.0->Some_0->Str_0) == chars_seq(&arguments@[0]->Str_0).reverse()""",
+ "ByteToAscii": """requires arguments@.len() >= 1, arguments@[0] is Byte
+    ensures ({ let b = arguments@[0]->Byte_0;
+        // a byte is an ASCII character only below 128: anything else is outside the domain -- a failure, not U+FFFD
+        &&& b < 128 ==> is_str(r, ascii_str(b))
+        &&& b >= 128 ==> r is Err })""",
  "StrLen": """requires recv(arguments@)
     ensures ({ let s = bytes(&arguments@[0]->Str_0); (s.len() <= i32::MAX ==> r is Ok && r->Ok_0.0 == Some(Primitive::Int(s.len() as i32))) && (s.len() > i32::MAX ==> r is Err) })""",
  "StrSubstring": """requires recv(arguments@), int_arg(arguments@, 1), int_arg(arguments@, 2)
@@ -123,6 +149,11 @@ def rules():
         Rule("R7", "( * $v ) . try_into ( ) . with_context ( $$c ) ?", "i32_to_usize ( * $v ) ?", why="i32 -> usize conversion"),
         Rule("R7", "len . try_into ( ) . with_context ( $$c ) ?", "usize_to_i32 ( len ) ?", why="usize -> i32 conversion"),
         Rule("R7", "s . len ( ) . try_into ( ) . context ( $m ) ?", "usize_to_i32 ( str_len ( s ) ) ?", why="usize -> i32 conversion"),
+        Rule("R9", "original . replace ( pattern , replacement )", "str_replace ( original , pattern , replacement )", why="str::replace(&str, &str) (assumed std contract)"),
+        Rule("R9", "s . contains ( o )", "str_contains ( s , o )", why="str::contains(&str)"),
+        Rule("R9", "v . chars ( ) . rev ( ) . collect ( )", "chars_rev_collect ( v )", why="chars().rev().collect(): the characters in reverse order"),
+        Rule("R9", "String :: from_utf8_lossy ( & [ * byte ] ) . into_owned ( )", "from_utf8_lossy_1 ( * byte )", why="String::from_utf8_lossy of one byte"),
+        Rule("R9", "byte . is_ascii ( )", "byte_is_ascii ( byte )", why="u8::is_ascii"),
         Rule("R9", "s . rfind ( o )", "str_rfind ( s , o )", why="str::rfind: byte position of the last occurrence (assumed std contract)"),
         Rule("R9", "s . find ( o )", "str_find ( s , o )", why="str::find: byte position of the first occurrence (assumed std contract)"),
         Rule("R7", "start . try_into ( ) . with_context ( $$c ) ?", "usize_to_i32 ( start ) ?", why="usize -> i32 conversion"),
